@@ -59,7 +59,17 @@ def gen_version(r, ver, rich):
               "    def s(a=%d, *, k=%d): return ('Dm.s', a, k)" % (pick(7, 100 + ver), pick(7, 100 + ver)),
               "    @classmethod",
               "    def c(cls, a=%d): return ('Dm.c', a)" % pick(7, 100 + ver)]
-    for n in ("dflt", "kwd", "ann", "docf"):
+    # defaults replaced by a DISTINCT object that compares EQUAL (1 -> True -> 1.0, 0.0 -> -0.0), and a default that IS
+    # a module-level object which the reload re-creates
+    eqd_ = r.choice([["1", "True", "1.0"], ["0.0", "-0.0", "0"], ["0", "False"], ["(1, 2)", "(1.0, 2)"]])
+    lines += ["SEEN = []",
+              "def remember(x='b', acc=SEEN): return ('remember', x, acc is SEEN, len(acc))",
+              "def eqdef(a=%s, *, k=%s): return ('eqdef', a, k)" % (r.choice(eqd_), r.choice(eqd_)),
+              "class Rm:",
+              "    def m(self, acc=SEEN, a=%s): return ('Rm.m', acc is SEEN, a)" % r.choice(eqd_)]
+    desc["SEEN"] = ("list",)
+    desc["Rm"] = ("class", None, {"m": "method"}, None)
+    for n in ("dflt", "kwd", "ann", "docf", "remember", "eqdef"):
         desc[n] = ("func", n, None)
     desc["Dm"] = ("class", None, {"m": "method", "s": "static", "c": "clsm"}, None)
     desc["Decimal"] = ("data",)
@@ -503,6 +513,23 @@ def _members(c, inst):
             out[k + '@class'] = _call(getattr(c, k))
     return out
 _MODNAME = [None]
+def _defaults(ds):
+    """defaults by (type, repr) and by identity relative to the module's own objects: a default that IS a module-level
+    container / function / class / instance must be that module-level object"""
+    import sys
+    out = []
+    mod = sys.modules.get(_MODNAME[0])
+    for d in ds:
+        key = None
+        if isinstance(d, tuple) and len(d) == 2 and isinstance(d[0], str) and not isinstance(ds, tuple):
+            key, d = d
+        names = []
+        if mod is not None and (isinstance(d, (list, dict, set, types.FunctionType, type)) or type(d).__module__ == _MODNAME[0]):
+            names = sorted(n for n, x in vars(mod).items() if x is d)
+        out.append([key, type(d).__name__, repr(d) if not isinstance(d, (types.FunctionType, type)) else d.__qualname__,
+                    'is module.' + '/'.join(names) if names else 'not a module-level object'
+                    if isinstance(d, (list, dict, set)) else ''])
+    return out
 def _ident(cls):
     """a class of the module under reload must BE the module's current attribute of that name"""
     import sys
@@ -515,7 +542,7 @@ def obs_val(v, depth=0):
     if _MODNAME[0] is not None and owner != _MODNAME[0] and not isinstance(v, (dict, list, tuple, types.MethodType)):
         return ['data', type(v).__name__, v.__qualname__ if isinstance(v, types.FunctionType) else repr(v)]  # foreign object
     if isinstance(v, types.FunctionType):
-        return ['func', v.__name__, _call(v), repr(v.__defaults__), repr(v.__kwdefaults__), v.__doc__,
+        return ['func', v.__name__, _call(v), _defaults(v.__defaults__ or ()), _defaults(sorted((v.__kwdefaults__ or {}).items())), v.__doc__,
                 sorted((k, getattr(t, '__name__', repr(t))) for k, t in v.__annotations__.items()),
                 sorted((k, type(x).__name__, repr(x)) for k, x in v.__dict__.items())]
     if isinstance(v, types.MethodType):
